@@ -148,6 +148,7 @@ func init() {
 			{ID: "R07.6", Title: "no address of an element of a slice is kept while the same function appends to that slice", Floor: 0, Run: ruleR076},
 			{ID: "R07.7", Title: "one number syntax: text to number conversions of the value package agree with the number parser of the language (kind and base)", Floor: 2, Run: ruleR077},
 			{ID: "R07.8", Title: "errors are not swallowed: no success return is reached from the non-nil branch of an error test without the error being used", Floor: 1, Run: ruleR078},
+			{ID: "R14.1", Title: "the = and < matrices: mirrored cells, integer cells compare integers exactly (see C14)", Floor: 11, Run: ruleR141},
 			{ID: "R06.4", Title: "deep traversals of language values are complete: no success before the elements of a container were handed to the recursion", Floor: 2, Run: ruleR064},
 			{ID: "R13.1", Title: "key-domain agreement of the map storages (see C13)", Floor: 9, Run: ruleR131},
 			{ID: "R09.1", Title: "list backing slices are never written in place (see C09)", Floor: 36, Run: ruleR091},
@@ -242,6 +243,8 @@ func init() {
 			{ID: "R13.1", Title: "key-domain agreement: Get, Iter and Size of every MapStorage implementation range over the same symbolic key set", Floor: 9, Run: ruleR131},
 			{ID: "R13.2", Title: "uniqueness: wrappers that add keys are dominated by a boolean presence test; map literals test before append", Floor: 5, Run: ruleR132},
 			{ID: "R13.3", Title: "representation independence: observers use the MapStorage interface only; flattening copies the abstract view", Floor: 3, Run: ruleR133},
+			{ID: "R13.4", Title: "the methods of a map stay reachable: the closure-field branch of a generated method call returns only after a function was extracted from the entry", Floor: 1, Run: ruleR134},
+			{ID: "R18.7", Title: "attribute form or element form of a map is decided per map (a field of the exporter), never per entry: the XML writer drops attributes that follow a child", Floor: 1, Run: ruleR187},
 			{ID: "R09.2", Title: "maps are never updated in place (see C09)", Floor: 40, Run: ruleR092},
 			{ID: "R09.3", Title: "language values other than List never append to a slice field of their receiver or of a shallow copy of it without capping or cloning it", Floor: 1, Run: ruleR093},
 		},
@@ -325,6 +328,7 @@ func init() {
 			{ID: "R18.4", Title: "elements are balanced: every function changes the depth by exactly its role on non-failing paths", Floor: 15, Run: ruleR184},
 			{ID: "R18.5", Title: "ToHtml recovers panics into its error result", Floor: 1, Run: ruleR185},
 			{ID: "R18.6", Title: "the XML name validator accepts only XML name characters (value-set analysis of its condition over all code points)", Floor: 1, Run: ruleR186},
+			{ID: "R18.7", Title: "attribute form or element form of a map is decided per map (a field of the exporter), never per entry: the XML writer drops attributes that follow a child", Floor: 1, Run: ruleR187},
 			{ID: "R07.8", Title: "errors are not swallowed: no success return is reached from the non-nil branch of an error test without the error being used", Floor: 1, Run: ruleR078},
 			{ID: "R17.5", Title: "nothing that is handed back to a sync.Pool is returned (no result refers to pooled memory)", Floor: 0, Run: ruleR175},
 			{ID: "R07.2", Title: "stores into fields of a value receiver are not lost: exporter state survives Add (see C07)", Floor: 0, Run: ruleR072},
